@@ -1928,6 +1928,8 @@ impl FileAndTime {
     }
 
     fn get_metadata(path: &Path) -> SystemTime {
+        #[cfg(mathcat_verif)]
+        if let Some(env) = crate::verif_hooks::env() { return env.modified(path).unwrap_or(SystemTime::UNIX_EPOCH); }
         use std::fs;
         if !cfg!(target_family = "wasm") {
             let metadata = fs::metadata(path);
